@@ -31,6 +31,13 @@ def main():
     if not demos:
         print("no demo"); sys.exit(2)
     demo = demos[0]
+    # round 7: the demonstration that fails with the change forces the interleaving
+    # through a hook that exists only in the patch; the one that must pass on the
+    # unchanged tree is a separate black-box stress test of the same scenario
+    stress = None
+    if meta.get("stress_file"):
+        stress = os.path.join(src, os.path.basename(meta["stress_file"]))
+        demo = os.path.join(src, os.path.basename(meta.get("demo_file") or f"demo{i}_test.go"))
     dest = f"{V}/seeded/{pid}-{tag}{i}"
     os.makedirs(dest, exist_ok=True)
     wt = f"/tmp/ev-{pid}-{tag}{i}"
@@ -49,10 +56,18 @@ def main():
             cmd = f"cd {wt} && {cmd}"
         copies = " cp " in " " + cmd
         # without the change
-        if not copies:
+        cmd0 = cmd
+        if stress:
+            cmd0 = meta.get("stress_command", "").replace(f"/tmp/wt/{srcid}.out", "@OUT@").replace(f"/tmp/wt/{srcid}", wt).replace("@OUT@", src)
+            if "cd " not in cmd0:
+                cmd0 = f"cd {wt} && {cmd0}"
+            first = ("\n" + open(stress).read()).split("\npackage ", 1)[1].split()[0].replace("_test", "")
+            sdir = pkgdir if not os.path.isdir(os.path.join(wt, first)) else first
+            shutil.copy(stress, os.path.join(wt, sdir, os.path.basename(stress)))
+        elif not copies:
             shutil.copy(demo, demo_dst)
-        rc0, out0 = sh(cmd, cwd=wt, timeout=900)
-        ran.append(cmd + "  (unchanged tree)")
+        rc0, out0 = sh(cmd0, cwd=wt, timeout=900)
+        ran.append(cmd0 + "  (unchanged tree)")
         rec["demo_passes_without"] = rc0 == 0
         if rc0 != 0:
             rec["demo_without_tail"] = out0[-400:]
@@ -96,9 +111,12 @@ def main():
             shutil.rmtree(co, ignore_errors=True)
     shutil.copy(patch, f"{dest}/patch.diff")
     shutil.copy(demo, f"{dest}/{os.path.basename(demo)}")
+    if stress:
+        shutil.copy(stress, f"{dest}/{os.path.basename(stress)}")
     m = {"property": pid, "base_commit": subprocess.run("git -C /repo rev-parse --short HEAD", shell=True, capture_output=True, text=True).stdout.strip(), "origin": "independent sub-agent given only the property text and a scratch worktree",
          "summary": meta.get("summary"), "needs_to_manifest": meta.get("needs_to_manifest"),
-         "files_changed": meta.get("files_changed"), "demo_file": os.path.basename(demo),
+         "files_changed": meta.get("files_changed"), "demo_file": os.path.basename(demo), "stress_file": os.path.basename(stress) if stress else None,
+         "stress_hits_with_patch": meta.get("stress_hits_with_patch"),
          "demo_package_dir": meta.get("demo_package_dir"), "demo_command": meta.get("demo_command"),
          "confirmation": rec, "what_i_ran": ran, "check_result": check,
          "caught": bool(check) and check.get("exit") == 1}
